@@ -1200,3 +1200,37 @@ Theorem live_handles_distinct_addresses_under_R2 ops h1 h2 x1 x2 :
   k (get s h1) = KHandle x1 -> k (get s h2) = KHandle x2 -> h1 <> h2 ->
   addr (get s h1) <> addr (get s h2).
 Proof. intros s A B _ _ N E. apply N. eapply (i_addr s (run_inv ops)); eassumption. Qed.
+
+(* the collector finalises what it frees: every member of a garbage set is dead afterwards, and
+   if it is a wrapper created with a destructor that was not removed, the destructor has run
+   exactly once by then *)
+Lemma dealloc_kills s g : alive (get (dealloc s g) g) = false.
+Proof. unfold dealloc. rewrite get_set, Nat.eqb_refl. reflexivity. Qed.
+
+Lemma fold_dead G : forall s i, alive (get s i) = false -> alive (get (fold_left dealloc G s) i) = false.
+Proof.
+  intros s i D. destruct (mono_fold G s i) as (_ & _ & _ & M).
+  destruct (alive (get (fold_left dealloc G s) i)); [rewrite M in D by reflexivity; discriminate | reflexivity].
+Qed.
+
+Lemma fold_kills G : forall s i, In i G -> alive (get (fold_left dealloc G s) i) = false.
+Proof.
+  induction G as [| g G IH]; intros s i I; [destruct I|]. cbn [fold_left]. destruct I as [-> | I].
+  - apply fold_dead. apply dealloc_kills.
+  - apply IH. exact I.
+Qed.
+
+Theorem collect_frees_members ops G i :
+  let s := run ops in
+  garbage s G = true -> In i G ->
+  let s' := step s (OCollect G) in
+  alive (get s' i) = false /\
+  (is_gcp (get s' i) = true -> had (get s' i) = true -> cancelled (get s' i) = false -> calls (get s' i) = 1).
+Proof.
+  intros s Gb I s'.
+  assert (E : s' = fold_left dealloc G s) by (unfold s'; cbn [step]; unfold collect; rewrite Gb; reflexivity).
+  assert (D : alive (get s' i) = false) by (rewrite E; apply fold_kills; exact I).
+  split; [exact D|]. intros Hg Hh Hc.
+  assert (R : s' = run (ops ++ [OCollect G])) by (rewrite run_app; reflexivity).
+  rewrite R in *. apply dtor_exactly_once; auto.
+Qed.
